@@ -41,6 +41,9 @@ pub enum OutState {
     ExistingLikeExpected(String),
     /// named: the character device /dev/null (open and write succeed, nothing is stored)
     DevNull,
+    /// named, exists, and its permission bits say read-only (0444); whether it can be written is the kernel's decision
+    /// (it can, for the super-user and with CAP_DAC_OVERRIDE, which is what this sandbox runs as)
+    ExistingReadOnly(Vec<u8>),
     /// named: a symbolic link whose target does not exist yet (in an existing directory); creating the output creates the target
     DanglingSymlink,
     /// named, exists and holds the rendering of the same input under the *other* sort option (same length, other
@@ -125,6 +128,7 @@ impl CliCase {
                 OutState::ExistingLikeExpected(t) => J::obj().set("existing_like_expected_plus", J::s(t)),
                 OutState::DevNull => J::s("dev_null"),
                 OutState::DanglingSymlink => J::s("dangling_symlink"),
+                OutState::ExistingReadOnly(b) => J::obj().set("existing_read_only", bytes_j(b)),
                 OutState::ExistingOtherSort => J::s("existing_other_sort"),
             },
         );
@@ -158,6 +162,7 @@ impl CliCase {
             Some(J::Str(s)) if s == "dev_null" => OutState::DevNull,
             Some(J::Str(s)) if s == "dangling_symlink" => OutState::DanglingSymlink,
             Some(J::Str(s)) if s == "existing_other_sort" => OutState::ExistingOtherSort,
+            Some(o) if o.get("existing_read_only").is_some() => OutState::ExistingReadOnly(j_bytes(o.get("existing_read_only").ok_or("output")?)?),
             Some(o) if o.get("existing_like_expected_plus").is_some() => OutState::ExistingLikeExpected(o.str_of("existing_like_expected_plus")?),
             Some(o) => OutState::Existing(j_bytes(o.get("existing").ok_or("output")?)?),
             None => return Err("output".into()),
@@ -351,6 +356,11 @@ pub fn run_cli_env(case: &CliCase, entropy: u128, sandbox: &Path, expected: Opti
             // the caller (props::c12) replaces this state by Existing(<other rendering>) before running; alone it is just new
         }
         OutState::Existing(b) => std::fs::write(&outp, b).map_err(|e| e.to_string())?,
+        OutState::ExistingReadOnly(b) => {
+            use std::os::unix::fs::PermissionsExt;
+            std::fs::write(&outp, b).map_err(|e| e.to_string())?;
+            std::fs::set_permissions(&outp, std::fs::Permissions::from_mode(0o444)).map_err(|e| e.to_string())?;
+        }
         OutState::ExistingLikeExpected(tail) => {
             let content = match expected {
                 Some(e) if tail.is_empty() => e.trim_end_matches('\n').to_string(),
